@@ -17,20 +17,25 @@ import (
 const sep = `,"camliSig":"`
 
 type gen struct {
-	r      *hk.Run
-	w      *world
-	kn     []*knownBlob
-	key    []*knownBlob               // the two signing keys
-	signed map[string]map[string]bool // signer ref text -> payloads (T) that key has signed
-	nv     int
+	r        *hk.Run
+	w        *world
+	kn       []*knownBlob
+	key      []*knownBlob               // the two signing keys
+	signed   map[string]map[string]bool // signer ref text -> payloads (T) that key has signed
+	nv       int
+	keyOps   []string // the `key` ops of the current case (prefix of every replay)
+	lastLine string   // the last `v` op
 }
 
 func (g *gen) newCase(label string, kinds map[*knownBlob]int) {
 	g.r.Case(label)
 	g.w = newWorld()
+	g.keyOps = nil
 	for _, k := range g.kn {
 		if kind, ok := kinds[k]; ok {
-			g.op(fmt.Sprintf("key %s %d", hk.Hex([]byte(k.ref.String())), kind))
+			l := fmt.Sprintf("key %s %d", hk.Hex([]byte(k.ref.String())), kind)
+			g.keyOps = append(g.keyOps, l)
+			g.op(l)
 		}
 	}
 }
@@ -460,6 +465,7 @@ func (g *gen) vop(base []byte, m string, orig *origInfo) vinfo {
 	vi := g.w.verify(d)
 	fact, cls := g.w.fact(vi)
 	line := "v " + m + " " + fact
+	g.lastLine = line
 	out := vi.String()
 	r.Op(line, out)
 	g.nv++
@@ -480,7 +486,7 @@ func (g *gen) vop(base []byte, m string, orig *origInfo) vinfo {
 		r.Hit("mech:signature-object-exactly-one-key")
 	}
 	replay := func() []string {
-		return []string{"doc " + hk.Hex(base), line}
+		return append(append([]string(nil), g.keyOps...), "doc "+hk.Hex(base), line)
 	}
 	if vi.accepted {
 		if bytes.Count(d, []byte(sep)) > 1 {
@@ -620,7 +626,8 @@ func (g *gen) crafted(sd *signedDoc) {
 	}
 	expect := func(vi vinfo, accepted bool, what string) {
 		if vi.accepted != accepted {
-			r.Fail("crafted-"+what, fmt.Sprintf("crafted document (%s): accepted=%v", what, vi.accepted), fmt.Sprint(accepted), vi.String(), nil)
+			r.Fail("crafted-"+what, fmt.Sprintf("crafted document (%s): accepted=%v", what, vi.accepted), fmt.Sprint(accepted), vi.String(),
+				append(append([]string(nil), g.keyOps...), g.lastLine))
 		}
 	}
 	// things that leave what is signed alone
@@ -821,12 +828,12 @@ func Run(r *hk.Run) {
 	k0 := g.key[0].ref.String()
 	for _, u := range []string{
 		"", " ", "{", "[1]", `"x"`, "12", "nul", `{"camliSigner":"` + k0 + `"} x`, `{"camliSigner":"` + k0 + `"}` + "\xc2", `{"camliSigner":"` + k0 + `",}`,
-		`{"camliSigner":"` + k0 + `","n":1e999}`, // jsonparse
+		`{"camliSigner":"` + k0 + `","n":1e999}`,                                       // jsonparse
 		"null", " null \n", "{}", `{"camliVersion":1}`, `{"camlisigner":"` + k0 + `"}`, // nosigner
 		`{"camliSigner":123}`, `{"camliSigner":""}`, `{"camliSigner":null}`, `{"camliSigner":["` + k0 + `"]}`, `{"camliSigner":"` + strings.ToUpper(k0) + `"}`, `{"camliSigner":" ` + k0 + `"}`, // malformed
 		`{"camliSigner":"sha224-` + strings.Repeat("0", 56) + `"}`, `{"camliSigner":"sha1-` + strings.Repeat("0", 40) + `"}`, `{"camliSigner":"foo-0"}`, // nokey
-		`{"camliSigner":"` + g.kn[3].ref.String() + `"}`,                               // badkey
-		`{"camliVersion":1,"camliSigner":"` + g.kn[2].ref.String() + `"}`,             // noentity
+		`{"camliSigner":"` + g.kn[3].ref.String() + `"}`,                                                                                    // badkey
+		`{"camliVersion":1,"camliSigner":"` + g.kn[2].ref.String() + `"}`,                                                                   // noentity
 		`{"camliSigner":"` + k0 + `"}`, `{"camliSigner":"` + k0 + `"}` + "\u00a0\u3000\n", `{"camliSigner":"x","camliSigner":"` + k0 + `"}`, // ok (no version)
 		`{"camliVersion":1,"camliSigner":"` + k0 + `"}`, // ok
 	} {
